@@ -22,6 +22,11 @@ func (fr *Frame) chanSend(c *blockCtx, ch Term, cond string, val Term) {
 		lg := g.getGhost(c.st, "$chlogI", ch.S)
 		g.setGhost(c.st, "$chlogI", ch.S, ite(cond, sto(lg.S, cur.S, val.S), lg.S))
 	}
+	if _, ok := g.W.ghosts["$chlogR"]; ok && val.Sort == SRef {
+		// log of the references sent on the channel, indexed by send number
+		lg := g.getGhost(c.st, "$chlogR", ch.S)
+		g.setGhost(c.st, "$chlogR", ch.S, ite(cond, sto(lg.S, cur.S, val.S), lg.S))
+	}
 	g.setGhost(c.st, "$chsends", ch.S, ite(cond, "(+ "+cur.S+" 1)", cur.S))
 }
 
@@ -77,22 +82,25 @@ func (fr *Frame) execRecv(ins *ssa.UnOp, c *blockCtx) {
 	if ins.CommaOk {
 		ok := g.sc.Fresh("recvok", SBool)
 		if !g.W.closeOnlyField(ins.X) {
-			fr.chanRecv(c, ch, ok.S, v)
+			fr.chanRecv(c, ch, ok.S, v, et)
 		}
 		fr.tuples[ins] = []Term{v, ok}
 		return
 	}
 	if !g.W.closeOnlyField(ins.X) {
-		fr.chanRecv(c, ch, "true", v)
+		fr.chanRecv(c, ch, "true", v, et)
 	}
 	fr.vals[ins] = v
 }
 
 // chanRecv counts a receive that delivered a value (ghost $chrecvs), when that ghost is declared.
-func (fr *Frame) chanRecv(c *blockCtx, ch Term, cond string, val Term) {
+func (fr *Frame) chanRecv(c *blockCtx, ch Term, cond string, val Term, et types.Type) {
 	g := fr.g
 	if _, ok := g.W.ghosts["$chrecvs"]; !ok {
 		return
+	}
+	if st, ok := et.Underlying().(*types.Struct); ok && st.NumFields() == 0 {
+		return // signal channels (chan struct{}) carry no values: their receives are not counted
 	}
 	cur := g.getGhost(c.st, "$chrecvs", ch.S)
 	if _, ok := g.W.ghosts["$chrlogI"]; ok && val.Sort == SIface {
@@ -142,7 +150,9 @@ func (fr *Frame) execSelect(ins *ssa.Select, c *blockCtx) {
 			// nothing is ever sent on it: the case fires only once the channel is closed, and delivers no value
 			g.sc.Assume(implies(and(c.reach, eq(idx.S, fmt.Sprint(i))), g.getGhost(c.st, "$chclosed", ch.S).S))
 		} else {
-			fr.chanRecv(c, ch, and(eq(idx.S, fmt.Sprint(i)), recvOk.S), v)
+			// a receive that reports !ok happened on a closed channel
+			g.sc.Assume(implies(and(c.reach, eq(idx.S, fmt.Sprint(i)), not(recvOk.S)), g.getGhost(c.st, "$chclosed", ch.S).S))
+			fr.chanRecv(c, ch, and(eq(idx.S, fmt.Sprint(i)), recvOk.S), v, et)
 		}
 		res = append(res, v)
 	}
